@@ -38,3 +38,20 @@ fn main() {
     let code = driver::main(&args);
     std::process::exit(code);
 }
+
+/// Seam for OS randomness: with `--cfg getrandom_backend="custom"` the `getrandom` crate (v0.3) asks this function
+/// instead of the kernel. Every request gets the same bytes, so nothing seeded from it (ahash's process-wide keys,
+/// hence the hashes of `metrics` keys and the iteration order of the metrics-util registry; thread RNG seeds) differs
+/// from one process to the next. Randomness that matters to a run comes from the run's seed, never from here.
+#[unsafe(no_mangle)]
+unsafe extern "Rust" fn __getrandom_v03_custom(dest: *mut u8, len: usize) -> Result<(), getrandom::Error> {
+    for i in 0..len {
+        // (a fixed, non-trivial pattern: splitmix64 of the byte's index)
+        let mut z = (i as u64 / 8).wrapping_add(0x9E37_79B9_7F4A_7C15);
+        z = (z ^ (z >> 30)).wrapping_mul(0xBF58_476D_1CE4_E5B9);
+        z = (z ^ (z >> 27)).wrapping_mul(0x94D0_49BB_1331_11EB);
+        z ^= z >> 31;
+        unsafe { *dest.add(i) = (z >> ((i % 8) * 8)) as u8 };
+    }
+    Ok(())
+}
